@@ -61,12 +61,13 @@ def varint(i):
 
 
 def varint_to_int(vi):
-    b = ord(vi[0])
+    vi = bytearray(vi)
+    b = vi[0]
     p = 1
     i = b & 0x7f
     shift = 7
     while b & 0x80 != 0:
-        b = ord(vi[p])
+        b = vi[p]
         p += 1
         i |= (b & 0x7F) << shift
         shift += 7
